@@ -896,8 +896,19 @@ func (r *vReplayer) compareStatus(s vStep, frames map[int][]*pubsubproto.PubSubM
 // stream (hooks in a seeded order) and require that no bookkeeping is left.
 func (r *vReplayer) nodeTeardown() {
 	e := r.e
-	for m := range r.parked {
-		r.releaseSubscribe(m)
+	// finish the subscribes in flight: first the one that holds remoteMu (parked at AddTagsCtx), then those past
+	// it, last those still waiting in front of the lock (they could not get it before)
+	for _, stage := range []string{"tag", "recheck", "check"} {
+		var ms []int
+		for m := range r.parked {
+			if r.stage[m] == stage {
+				ms = append(ms, m)
+			}
+		}
+		sort.Ints(ms)
+		for _, m := range ms {
+			r.releaseSubscribe(m)
+		}
 	}
 	models := e.allModels()
 	// shuffle
